@@ -78,6 +78,95 @@ def _regex_info(pattern: str):
     return {"groups": ngroups, "names": names, "optional": optional, "prefix": "".join(lits), "suffix": "".join(reversed(tail)), "tree": tree}
 
 
+REF_TREES = {
+    "nested repeats and groups": ("data", [("q", "a"), ("r", "r1", [("q", "b"), ("g", "g1", [("q", "c"), ("r", "r2", [("q", "d"), ("g", "g2", [("q", "e")])])]), ("g", "g3", [("q", "f")])]),
+                                            ("g", "g4", [("q", "h"), ("r", "r3", [("q", "i")])])]),
+    "deep groups inside one repeat": ("data", [("r", "r", [("g", "g1", [("g", "g2", [("g", "g3", [("q", "t")])])]), ("q", "q")])]),
+    "sibling repeats whose names share a prefix": ("data", [("r", "o", [("r", "ab", [("q", "q1")]), ("r", "abc", [("q", "q2")])])]),
+    "repeat whose name is also a question's name elsewhere": ("data", [("g", "intro", [("q", "member")]), ("r", "member", [("q", "x"), ("g", "gg", [("q", "y")])])]),
+    "group names that are prefixes of each other": ("data", [("r", "rr", [("g", "a", [("q", "p")]), ("g", "ab", [("q", "p2")]), ("q", "p3")])]),
+}
+
+
+def reference_resolution_rule(ctx, prop, rid):
+    """The heart of C03 on bounded trees: for every ordered pair (referrer, target) of questions in a family of small
+    trees, the real substituter is evaluated on `${target}` with the referrer as context, and the produced path is
+    resolved against the tree from the referrer's node.  It must reach the target, and it is relative exactly when the
+    target's innermost enclosing repeat also encloses the referrer."""
+    from .. import trees
+    r = Rule(prop, rid, "references resolve to the named question on bounded trees", floor=80,
+             necessary="a path that does not reach the target (or is absolute inside the shared repeat) reads another node's value")
+    scls = ctx.repo.cls("pyxform.survey:Survey")
+    ix = scls.methods["insert_xpaths"]
+    sx = scls.methods["_setup_xpath_dictionary"]
+    for tname, spec in REF_TREES.items():
+        survey, _by_name, everything = trees.build(ctx, spec)
+        it = ctx.interp(rid)
+        it.reset([])
+        try:
+            it.call_function(sx, [survey], {}, None, sx.node)
+        except Raised as e:
+            r.fail(f"tree[{tname}]", f"name map builds ({e.exc_name})", sx.loc())
+            continue
+        amb = {k for k, v in (survey.attrs.get("_xpath") or {}).items() if v is None}
+        questions = [e for e in everything if e.attrs.get("children") is None]
+
+        def anc(e):
+            out = []
+            p = e.attrs.get("parent")
+            while p is not None:
+                out.append(p)
+                p = p.attrs.get("parent")
+            return out
+
+        def inner_repeat(e):
+            return next((a for a in anc(e) if a.attrs.get("type") == "repeat"), None)
+
+        def resolve(path, start):
+            parts = [p for p in path.strip().split("/")]
+            if path.strip().startswith("/"):
+                cur = None
+                names = [p for p in parts if p]
+                if not names or names[0] != survey.name:
+                    return None
+                cur = survey
+                names = names[1:]
+            else:
+                cur = start
+                names = [p for p in parts if p]
+            for nm in names:
+                if nm == "..":
+                    cur = cur.attrs.get("parent")
+                elif nm == ".":
+                    continue
+                else:
+                    kids = [k for k in (cur.attrs.get("children") or []) if k.name == nm]
+                    cur = kids[0] if len(kids) == 1 else None
+                if cur is None:
+                    return None
+            return cur
+
+        for ref in questions:
+            for tgt in questions:
+                if ref is tgt or tgt.name in amb:
+                    continue
+                it.reset([])
+                try:
+                    out = it.call_function(ix, [survey, "${" + tgt.name + "}", ref], {}, None, ix.node)
+                except Raised as e:
+                    r.fail(f"tree[{tname}] {ref.name} -> ${{{tgt.name}}}", f"substitution evaluates ({e.exc_name}{e.exc_args})", ix.loc())
+                    continue
+                path = out.strip() if isinstance(out, str) else None
+                reached = resolve(path, ref) if path else None
+                want_rel = inner_repeat(tgt) is not None and inner_repeat(tgt) in anc(ref)
+                is_rel = bool(path) and not path.startswith("/")
+                # relative is REQUIRED inside the shared repeat; elsewhere either form is fine as long as it reaches the target
+                ok = reached is tgt and (is_rel or not want_rel)
+                r.check(ok, f"tree[{tname}] {ref.name} -> ${{{tgt.name}}}", f"{'relative path' if want_rel else 'path'} reaching {tgt.name}", ix.loc(),
+                        why_fail=f"got {out!r}, which reaches {reached.name if reached is not None else 'nothing'}")
+    return r
+
+
 def _relation_rule(ctx):
     """C03.R5: the referrer/target relation that decides relative vs absolute paths, evaluated (abstractly: elements
     are attribute bags with `parent` and `type`) on every pair of positions below a common ancestor chain, depths 0..4,
@@ -427,6 +516,7 @@ def run(ctx):
              "references typed inside a secondary-instance predicate are detected and anchored too", vr.loc())
     rules.append(r4)
     rules.append(_relation_rule(ctx))
+    rules.append(reference_resolution_rule(ctx, "C03", "C03.R6"))
     return rules
 
 
